@@ -103,13 +103,10 @@ int tcp_set_keepalive(struct tcp_opts *opts, int fd, bool keepalive)
     if (opts->keepalive == keepalive)
 	return 0;
 
-    opts->keepalive = keepalive;
-
-    if (fd < 0)
-	return 0;
-
-    if (effectuate_keepalive(fd, keepalive) < 0)
+    if (fd >= 0 && effectuate_keepalive(fd, keepalive) < 0)
 	return -1;
+
+    opts->keepalive = keepalive;
 
     return 0;
 }
@@ -119,16 +116,13 @@ int tcp_set_keepalive(struct tcp_opts *opts, int fd, bool keepalive)
     {									\
 	if (opts->optname == value)					\
 	    return 0;							\
-	int64_t scaled_value = value * (k);				\
-	if (scaled_value <= 0 || scaled_value > INT_MAX) {		\
+	if (value <= 0 || value > INT_MAX / (k)) {			\
 	    errno = EINVAL;						\
 	    return -1;							\
 	}								\
-	opts->optname = value;						\
-	if (fd < 0)							\
-	    return 0;							\
-	if (effectuate_ ## optname(fd, value) < 0)			\
+	if (fd >= 0 && effectuate_ ## optname(fd, value) < 0)		\
 	    return -1;							\
+	opts->optname = value;						\
 	return 0;							\
     }
 
